@@ -23,7 +23,7 @@ ID = "C09"
 LEVEL = "exploration"
 RULE = ("random queries whose condition contains at least one user predicate (function predicate, Predicate subclass or "
         "HasType) over 1-2 variables, depth<=3, quantifier an / the / infer (infer and a share of an/the use a rule head "
-        "V(b=x, k=expr) built in rule mode), each evaluated from a fresh build under ambient none, query and rule mode; for half of the an/infer cases the ambient mode also changes between successive results (one scheduled mode per next()); a share of the single-variable cases take their domain from a nested query that is evaluated lazily. "
+        "V(b=x, k=expr) built in rule mode), each evaluated from a fresh build under ambient none, query and rule mode and inside the query's own symbolic_mode(q) / rule_mode(q) block; a fifth of the conditions contain a predicate that builds and evaluates a query of its own (with a Predicate subclass in it); for half of the an/infer cases the ambient mode also changes between successive results (one scheduled mode per next()); a share of the single-variable cases take their domain from a nested query that is evaluated lazily. "
         "Non-trivial: the oracle outcome is not empty/none. distinct by structural hash.")
 LEVEL_TEXT = ("Configuration differential on the real code (three ambient modes) plus oracle; predicate call counters "
               "show that user code really ran concretely in every mode; result objects are type-checked.")
@@ -41,6 +41,9 @@ class V:
 
 
 MODES = ["none", "query", "rule"]
+# blocks that also carry a query of their own (rule_mode(q) is how conclusions are added to q): the statement names the
+# three modes; these spellings of the same modes are compared like them
+MODES_WITH_QUERY = ["query_of", "rule_of"]
 
 
 def plan(tier, seed):
@@ -51,7 +54,7 @@ def plan(tier, seed):
 def floors(tier):
     return {"distinct_nontrivial": 400, "cls:quant:an": 400, "cls:quant:the": 300, "cls:quant:infer": 300,
             "cls:head": 500, "cls:tag:fpred": 300, "cls:tag:cpred": 300, "cls:tag:hastype": 100, "predicate_calls": 5000,
-            "cls:ambient_changes_between_results": 300, "cls:query_as_domain": 100}
+            "cls:ambient_changes_between_results": 300, "cls:query_as_domain": 100, "cls:predicate_that_runs_a_query_of_its_own": 300}
 
 
 def _has_pred(c):
@@ -70,6 +73,9 @@ def cases(spec, ctx):
                 break
         else:
             cond = ["and", cond, ["fpred", "f_gt", [["v", 0, []], ["lit", 1]]]]
+        if rng.random() < 0.2:
+            # a predicate that builds and evaluates a query of its own during the evaluation
+            cond = [rng.choice(["and", "or"]), cond, ["fpred", "f_inner", [["v", rng.randrange(nv), []], ["lit", rng.randint(0, 2)]]]]
         quant = rng.choice(["an", "an", "the", "the", "infer", "infer"])
         head = quant == "infer" or rng.random() < 0.3
         k_expr = rng.choice([["lit", 5], ["v", 0, [["a", "a"]]], ["v", nv - 1, [["a", "b"]]]])
@@ -84,13 +90,21 @@ def cases(spec, ctx):
         yield case
 
 
-def _ambient(mode):
+def _ambient(mode, q=None):
     from entity_query_language import symbolic_mode
     from entity_query_language.symbolic import rule_mode
     if mode == "query":
         return symbolic_mode()
     if mode == "rule":
         return rule_mode()
+    if mode in ("query_of", "rule_of"):
+        from entity_query_language import an, entity, let
+        if q is not None:       # the block of the very query that is evaluated inside it
+            return symbolic_mode(q) if mode == "query_of" else rule_mode(q)
+        with symbolic_mode():
+            o = let(D.P, [D.P(a=1)])
+            other = an(entity(o, o.a > 0))
+        return symbolic_mode(other) if mode == "query_of" else rule_mode(other)
     return contextlib.nullcontext()
 
 
@@ -142,7 +156,7 @@ def run(case, world, mode):
             return tuple(H.lab(m, r[x]) for x in xs)
 
         sched = case.get("schedule")
-        with _ambient(mode):
+        with _ambient(mode, q):
             try:
                 if case["quant"] == "the":
                     out = ["value", [enc(q.evaluate())]]
@@ -186,6 +200,8 @@ def check_case(case, ctx):
     for t in C.shape_tags(case["cond"]):
         if t in ("fpred", "cpred", "hastype"):
             ctx.cls("cls:tag:" + t)
+    if "f_inner" in repr(case["cond"]):
+        ctx.cls("cls:predicate_that_runs_a_query_of_its_own")
     if case["quant"] == "the":
         want = ["none"] if not exp else ["multiple"] if len(exp) > 1 else ["value", [exp[0]]]
     else:
@@ -193,14 +209,15 @@ def check_case(case, ctx):
     if exp:
         ctx.nontrivial()
     outs, calls = {}, {}
-    for mode in MODES:
+    modes = MODES + MODES_WITH_QUERY
+    for mode in modes:
         outs[mode], calls[mode] = run(case, world, mode)
         ctx.count("predicate_calls", calls[mode])
 
     def norm(o):
         return [o[0], sorted(o[1])] if o[0] == "rows" else o
 
-    for mode in MODES:
+    for mode in modes:
         if norm(outs[mode]) != norm(want):
             ctx.fail("AMBIENT_MODE:" + mode, {"ambient": mode, "expected": want if len(str(want)) < 600 else str(want)[:600],
                                              "observed": {k: (v if len(str(v)) < 400 else str(v)[:400]) for k, v in outs.items()},
